@@ -42,6 +42,9 @@ type tcProfile struct {
 	Hooks     int
 	BadRcpt   int
 	Admin     bool // background admin traffic on both chains (C16 / C18)
+	Reimport  int  // weight of "restart a chain from its exported genesis" (C16)
+	Replicas  bool // run every block on independent replicas too (C18)
+	Plans     bool // executor-change plans on L2 (several validators leave in one block)
 }
 
 type depEvent struct {
@@ -132,6 +135,11 @@ func newTwoChain(r *core.Run, p *tcProfile) (*twoChain, *core.Violation) {
 	l2p := &l2Profile{Prop: p.Prop, MaxTx: 4, Hooks: p.Hooks, BadRcpt: p.BadRcpt, W: map[string]int{}, NonTriv: func(*l2World) bool { return true }}
 	tc.L2 = newL2WorldOpt(r, l2p, 1, tc.L1.denoms)
 	tc.L2.l1Rcpts = tc.L1.ustr
+	tc.L2.p.Plans = p.Plans
+	if p.Replicas {
+		tc.L1.addReplicas(tc.L1.genesis)
+		tc.L2.addReplicas()
+	}
 	tc.bridge = 1
 	tc.simNow = tc.L1.now
 	if tc.L2.now.After(tc.simNow) {
@@ -580,6 +588,14 @@ func (tc *twoChain) actThirdParty() {
 // actExecutor: observe both chains, then relay what L2 has not processed yet.
 func (tc *twoChain) actExecutor(e *execActor) {
 	r := tc.r
+	// an executor actor operates whichever key the chain currently lists (plans and parameter changes rotate them)
+	if cur := tc.L2.m.Params.BridgeExecutors; len(cur) > 0 {
+		for i, x := range tc.execs {
+			if x == e {
+				e.Addr = cur[i%len(cur)]
+			}
+		}
+	}
 	// observation may lag
 	if tc.draining || !tc.p.Faults || r.Chance(3, 4) {
 		e.SeenL1 = len(tc.deps)
@@ -783,6 +799,36 @@ func (tc *twoChain) actAdminL2() {
 			}
 		}
 	}
+	// never empty the validator set (outside the scope of the properties): count removals already on their way
+	countRm := func(ms []sdk.Msg) int {
+		n := 0
+		for _, m := range ms {
+			switch x := m.(type) {
+			case *opchildtypes.MsgRemoveValidator:
+				n++
+			case *opchildtypes.MsgExecuteMessages:
+				inner, _ := x.GetMsgs()
+				for _, im := range inner {
+					if _, ok := im.(*opchildtypes.MsgRemoveValidator); ok {
+						n++
+					}
+				}
+			}
+		}
+		return n
+	}
+	pendingRm := 0
+	for _, f := range tc.inflight {
+		if f.Chain == 2 {
+			pendingRm += countRm(f.Msgs)
+		}
+	}
+	for _, t := range tc.mem2 {
+		pendingRm += countRm(t.Msgs)
+	}
+	if n := countRm(msgs); n > 0 && w.m.bonded()-pendingRm-n < 1 {
+		return
+	}
 	tc.r.Step("act.admin-l2", "%s %s", kind, desc)
 	tc.send(2, "admin", msgs, kind, desc)
 }
@@ -790,7 +836,7 @@ func (tc *twoChain) actAdminL2() {
 // step performs one scheduler-chosen action.
 func (tc *twoChain) step() *core.Violation {
 	r := tc.r
-	wts := []int{10, 8, 4, 2, 10, 4, tc.p.Challenge, 5, 9, 9, 0, 0, 0}
+	wts := []int{10, 8, 4, 2, 10, 4, tc.p.Challenge, 5, 9, 9, 0, 0, 0, tc.p.Reimport}
 	if tc.p.Faults {
 		wts[10] = 2 // partition / heal
 	}
@@ -831,6 +877,14 @@ func (tc *twoChain) step() *core.Violation {
 		tc.actAdminL1()
 	case 12:
 		tc.actAdminL2()
+	case 13:
+		// restart one chain from its exported genesis; its mempool is gone, messages in flight are not
+		if r.Chance(1, 2) {
+			tc.mem1 = nil
+			return tc.L1.reimport()
+		}
+		tc.mem2 = nil
+		return tc.L2.reimport()
 	}
 	return nil
 }
@@ -852,6 +906,11 @@ func (tc *twoChain) produce(chain int) *core.Violation {
 		take, keep := tc.proposerOrder(tc.mem1)
 		tc.mem1 = keep
 		return tc.blockL1(take, dt, crash)
+	}
+	if tc.L2.p.Plans && !tc.draining && r.Chance(1, 10) {
+		if v := tc.L2.registerPlan(blockCtx{Height: tc.L2.n.Height() + 1}); v != nil {
+			return v
+		}
 	}
 	tc.deliver(2)
 	take, keep := tc.proposerOrder(tc.mem2)
